@@ -142,6 +142,9 @@ class SByteArray(BytesBase):
         self.content = content          # SBytes-like (immutable)
         self.length = content.length
         self.fields = {}                # (a,b) concrete -> BytesBase value (exact ranges)
+        c = cur()
+        c.counter += 1
+        self.born = c.counter           # allocation stamp (L3: stores into objects older than the loop are family stores)
 
     def __repr__(self):
         return f'SByteArray(len={self.length}, fields={sorted(self.fields)})'
@@ -203,6 +206,9 @@ class SByteArray(BytesBase):
         same = ops_cmp('==', vlen, span)
         same_known = (same is True) or cur().known(same)
         val = val.snapshot()
+        from . import loops
+        if loops.active_vars() and loops.is_outer(self):
+            return self._family_store(lo, hi, val, same_known)
         if not is_sym(lo) and not is_sym(hi) and not is_sym(vlen) and same_known:
             # concrete field store
             for (x, y) in list(self.fields):
@@ -243,6 +249,53 @@ class SByteArray(BytesBase):
         self.content = SBytes(newlen, fn2)
         self.length = newlen
         cur().ghost['resized_bytearray'] = True
+
+
+def _family_store(self, lo, hi, val, same_known):
+    """store executed by the generic iteration of an L3 loop nest into a bytearray that outlives it"""
+    from . import loops
+    c = cur()
+    if not same_known:
+        c.ghost['resized_bytearray'] = True
+        raise Unsupported('length-changing slice assignment inside an independent-iterations loop')
+    if self.fields:
+        snap = self.snapshot()
+        self.content = SBytes(self.length, lambda q: snap.tok(q))
+        self.fields = {}
+    old = self.content
+    levels = loops.active_levels()
+    jz = c.fresh_int('fsj')
+    c.nonneg_ids.add(jz.get_id())
+    c.assume_raw(z3.And(jz >= 0, jz < zint(ops_binop('-', hi, lo))))      # (hi > lo: a non-empty store)
+    q0 = ops_binop('+', lo, mk_int(jz))
+    loops.unique_cover_obligation('bytearray_store', levels, True, q0)
+
+    def fn(q, old=old, val=val, lo=lo, hi=hi, levels=levels):
+        ws = loops.witness_for(levels, q)
+        pairs = loops.family_pairs(levels, ws)
+        lo_w, hi_w = loops.subst(lo, pairs), loops.subst(hi, pairs)
+        cond = And(loops.family_in_range(levels, ws), ops_cmp('>=', q, lo_w), ops_cmp('<', q, hi_w))
+        if cond is False:
+            return old.tok(q)
+        if cond is not True and c.prove(cond):
+            cond = True
+        qk = mk_int(c.fresh_int('fq'))           # placeholder position, substituted together with the indices
+        before = c.counter
+        c.guards.append(And(ops_cmp('>=', qk, lo), ops_cmp('<', qk, hi)))
+        try:
+            t = val.tok(ops_binop('-', qk, lo))
+        finally:
+            c.guards.pop()
+        loops.check_closed(t, before)
+        t_w = loops.subst(t, pairs + [(zint(qk), zint(q))])
+        if cond is True:
+            return t_w
+        return tok_ite(cond, t_w, old.tok(q))
+    self.content = SBytes(self.length, fn)
+    c.ghost.setdefault('family_stores', []).append(('bytearray', self, levels))
+
+
+SByteArray._family_store = _family_store
 
 
 def as_bytes(v):
